@@ -427,12 +427,42 @@ def layered_tracer_over_uniform_layers_is_reciprocal_sampled():
         prove("directions-exchanged-and-reversed", ok_d)
 
 
+def _gradient_stack():
+    return new(LI, [new("pyrex.ice_model.AntarcticIce", valid_range=(-200, 0)),
+                    new("pyrex.ice_model.UniformIce", index=1.78, valid_range=(-2850, -200))])
+
+
+def _joints_are_mirrored(solutions):
+    """a solution is a chain of sub-paths; where two consecutive legs meet at a boundary and the vertical sense flips
+    (a reflection) the direction must be mirrored: horizontal part kept, vertical part reversed"""
+    worst = 0.0
+    for s in solutions:
+        subs = s._paths if hasattr(s, "_paths") else s.paths
+        for p, q in zip(subs[:-1], subs[1:]):
+            r, e = np.asarray(p.received_direction), np.asarray(q.emitted_direction)
+            if np.sign(r[2]) != np.sign(e[2]):
+                worst = max(worst, abs(r[0] - e[0]), abs(r[1] - e[1]), abs(r[2] + e[2]))
+    return worst
+
+
 @harness(clause="layered-reciprocity-gradient-layer", bounded=3, label="B")
 def layered_tracer_with_a_gradient_layer_at_the_reported_geometry():
-    ice = new(LI, [new("pyrex.ice_model.AntarcticIce", valid_range=(-200, 0)),
-                   new("pyrex.ice_model.UniformIce", index=1.78, valid_range=(-2850, -200))])
+    """the geometry at which defect D14 was found (fixed by 87459b4): firn over uniform bulk, both points in the firn"""
+    ice = _gradient_stack()
     a, b = (500.0, 500.0, -100.0), (0.0, 0.0, -150.0)
     fwd, bwd, s1, s2 = _both_ways(ice, a, b)
     prove("exists-iff-solutions-non-empty", And(fwd.exists == (len(s1) > 0), bwd.exists == (len(s2) > 0)))
-    # (500, 500, -100) <-> (0, 0, -150), AntarcticIce firn (0 .. -200 m) over uniform bulk ice
     prove("same-number-of-solutions-in-both-directions", len(s1) == len(s2))
+
+
+@harness(clause="layered-reciprocity-gradient-layer", bounded=12, label="B")
+def layered_tracer_with_a_gradient_layer_sampled():
+    ice = _gradient_stack()
+    a = (real("ax", -400, 400), real("ay", -400, 400), -real("a_depth", 10, 400))
+    b = (real("bx", -400, 400), real("by", -400, 400), -real("b_depth", 10, 400))
+    fwd, bwd, s1, s2 = _both_ways(ice, a, b)
+    prove("exists-iff-solutions-non-empty", And(fwd.exists == (len(s1) > 0), bwd.exists == (len(s2) > 0)))
+    prove("direction-is-mirrored-at-every-reflection-joint", max(_joints_are_mirrored(s1), _joints_are_mirrored(s2)) <= 1e-6)
+    prove("same-number-of-solutions-in-both-directions", len(s1) == len(s2))
+    if len(s1) == len(s2):
+        prove("equal-times-of-flight", all(abs(p.tof - q.tof) <= 1e-4 * p.tof for p, q in zip(s1, s2)))
